@@ -90,7 +90,12 @@ func TestZZVerifC01Replay(t *testing.T) {
 			return
 		}
 
+		// Two generators: one for the concretisation and the reconfiguration
+		// operations, one for the requests (their number depends on timing
+		// when a reconfiguration is waited for), so that a walk is driven
+		// with the same operations every time.
 		rng := rand.New(rand.NewSource(zzSeed()*1000003 + int64(l.I)))
+		rngQ := rand.New(rand.NewSource(zzSeed()*1000003 + int64(l.I) + 500009))
 		d := filepath.Join(dir, strconv.Itoa(l.I))
 		z, err := zzC0102Build(&l.Steps[0].Cfg, d, rng)
 		if err != nil {
@@ -155,7 +160,7 @@ func TestZZVerifC01Replay(t *testing.T) {
 
 						return st.Tab[qi]
 					}
-					o, ok := z.settled(req, ans, rng, via, wantOf)
+					o, ok := z.settled(req, ans, rngQ, via, wantOf)
 					evals++
 					if ok {
 						continue
